@@ -166,6 +166,8 @@ package mempool
 //@ spec conflictsListed(mp *Pool, tx *transaction.Transaction) bool = forall(k, 0, len(tx.Attributes), tx.Attributes[k].Type == transaction.ConflictsT ==> has(mp.conflicts, tx.Attributes[k].Value.(*transaction.Conflicts).Hash))
 //@ func (*Pool).RemoveStale
 //@ opt callbacks pure
+// every transaction that stays is re-admitted against the payer's balance as it is now (checked, not just added up)
+//@ call tryAddSendersFee requires[checked] arg3 && arg1 == itm.txn && arg2 == feer
 //@ requires mapsOK(mp) && feer != nil && isOK != nil && wfItems(mp)
 //@ modifies mp.verifiedTxes, elems(item), mp.verifiedMap, mp.fees, mp.conflicts, mp.oracleResp, elems(util.Uint256), mp.feePerByte
 //@ ensures[len] len(mp.verifiedTxes) <= old(len(mp.verifiedTxes))
